@@ -50,7 +50,7 @@ def run(ctx):
         raise vlib.NoVerdict("driver recorded %d of %d updates" % (len(lines), steps + len(beh)))
 
     # 3b. real connected pairs (weak, order-insensitive predicates); one TLC run validates both files
-    npairs = 2 if quick else 40
+    npairs = 4 if quick else 40
     ptrace = os.path.join(ctx.work, "pairs.ndjson")
     vlib.go_run(ctx, binary, "TestVerifConnStatePairs", None, ptrace, env={"VERIF_CS_PAIRS": npairs}, timeout=300)
     with open(trace, "a") as fh:
